@@ -256,6 +256,32 @@ class Recorder:
             inner._repid_signal_emitter = getattr(orig, "_repid_signal_emitter", None)
             setattr(broker, name, inner)
 
+        if hasattr(broker, "maintenance"):
+            orig_maint = broker.maintenance
+
+            async def maintenance():
+                if CURRENT_CALL.get():
+                    return await orig_maint()
+                k = rec.begin("maint", 0, 0)
+                tok = CURRENT_CALL.set(k)
+                try:
+                    r = await orig_maint()
+                except asyncio.CancelledError:
+                    rec.end(k, "cancel")
+                    raise
+                except Exception:
+                    rec.end(k, "exc")
+                    raise
+                else:
+                    rec.end(k, "ok")
+                    return r
+                finally:
+                    try:
+                        CURRENT_CALL.reset(tok)
+                    except ValueError:
+                        pass
+            broker.maintenance = maintenance
+
         # queue_flush / queue_delete remove the messages of one queue; queue_declare must not touch any
         for n, op in (("queue_flush", "flush"), ("queue_delete", "flush"), ("queue_declare", "declare")):
             wrap_queue_op(n, op)
